@@ -25,7 +25,7 @@ arbitrary nesting.) -/
 theorem wf_no_illegal_machine (env : Env) (hch : ChooseOK env) (fuel : Nat) (m input ctx : Json)
     (h : WF m = true) : illRun env fuel m input ctx = false := by
   simp only [WF, Bool.and_eq_true] at h
-  obtain ⟨s, kvs, hs, hk, hdef, hw⟩ := wfBranch_inv h.1.1
+  obtain ⟨s, kvs, hs, hk, hdef, hw⟩ := wfBranch_inv h.1.1.1
   simp only [illRun, hs, hk]
   exact (safe_all env hch fuel).from_ _ _ _ _ _ _ ⟨_, hw⟩ hdef
 
@@ -123,7 +123,7 @@ theorem wf_start_defined (m : Json) (h : WF m = true) :
     ∃ start kvs state, fldStr m "StartAt" = some start ∧ fld m "States" = some (.obj kvs) ∧
       objGet kvs start = some state ∧ stateType state ∈ knownTypes := by
   simp only [WF, Bool.and_eq_true] at h
-  obtain ⟨s, kvs, hs, hk, hdef, hw⟩ := wfBranch_inv h.1.1
+  obtain ⟨s, kvs, hs, hk, hdef, hw⟩ := wfBranch_inv h.1.1.1
   obtain ⟨state, hst⟩ := defined_get hdef
   have hws := wfScope_get hw hst
   cases hsz : m.size with
@@ -154,13 +154,22 @@ theorem nonobject_rejected (j : Json) (h : ∀ kvs, j ≠ .obj kvs) : WF j = fal
 /-- well-formed definitions have no two states of the same name, at any nesting level -/
 theorem wf_unique_names (m : Json) (h : WF m = true) : nodup (namesIn m.size m) = true := by
   simp only [WF, Bool.and_eq_true] at h
-  exact h.1.2
+  exact h.1.1.2
 
 /-- a well-formed definition's execution time limit, when given, is a number, and the `MaxConcurrency` of each
 of its Map states a non-negative integer (what the engine refuses to interpret otherwise) -/
 theorem wf_time_limit_is_number (m : Json) (h : WF m = true) : timeoutOk m = true := by
   simp only [WF, Bool.and_eq_true] at h
-  exact h.2
+  exact h.1.2
+
+/-- no state of a well-formed definition, at any nesting level, has the empty string for its name (the engine takes an
+event whose state name is empty for the start of a new execution) -/
+theorem wf_names_nonempty (m : Json) (h : WF m = true) : [] ∉ namesIn m.size m := by
+  simp only [WF, Bool.and_eq_true, namesOk, Bool.not_eq_true'] at h
+  intro hc
+  have := h.2
+  simp [List.contains_iff_mem] at this
+  exact this hc
 
 /-! ### non-vacuity -/
 
@@ -211,6 +220,11 @@ example : WF dangling = false ∧ illRun liteEnv 10 dangling (.obj []) (.obj [])
 /-- … duplicate names across nesting levels and an empty `Branches` are refused -/
 example : lint dupNames = [.duplicateNames] := by decide
 example : WF emptyBranches = false := by decide
+/-- … and so is a branch whose only state is named by the empty string (what the engine fails as an Illegal State
+Machine although every transition target is defined) -/
+def emptyName : Json := .obj [(S "StartAt", .str (S "P")), (S "States", .obj [(S "P", .obj [(S "Type", .str (S "Parallel")),
+  (S "End", .bool true), (S "Branches", .arr [.obj [(S "StartAt", .str []), (S "States", .obj [([], .obj [(S "Type", .str (S "Pass")), (S "End", .bool true)])])]])])])]
+example : WF emptyName = false ∧ namesOk emptyName = false ∧ wfBranch emptyName.size emptyName = true := by decide
 /-- `decode_total` on values that are no definitions at all -/
 example : lint (.num 3) = [.notAnObject] ∧ lint (.arr []) = [.notAnObject] ∧ lint (.obj []) = [.noStates] := by decide
 /-- hypotheses of `site_a` / `site_c`: a scope without the name; a state with an unknown Type -/
